@@ -93,8 +93,13 @@ mod imp {
         VALS.with(|c| {
             let v = c.borrow();
             if i >= v.len() {
-                // Values past the end of the recording were unconstrained in the trace.
-                return vec![0u8; n];
+                // Values past the end of the recording were unconstrained in the trace. The filler byte
+                // is 0 unless VERIF_REPLAY_FILL is set (the non-termination probe uses 1: small valid
+                // weights, `true` flags).
+                let fill = std::env::var("VERIF_REPLAY_FILL").ok().and_then(|s| s.parse::<u8>().ok()).unwrap_or(0);
+                let mut out = vec![0u8; n];
+                out[0] = fill;
+                return out;
             }
             if v[i].len() != n {
                 eprintln!("VERIF_REPLAY_DESYNC at value {}: have {} bytes, want {}", i, v[i].len(), n);
